@@ -1119,7 +1119,6 @@ func runC14(c *Ctx) {
 	if !c.Replay || c.OnlyStr == "fullstdout" {
 		runC14FullStdout(c)
 	}
-	runC14Late(c) // ---- journals that fail late, after a long valid prefix (c14late.go)
 
 	// cases are generated, run and evaluated chunk by chunk, so that the harness itself stays small (the resident
 	// set the kernel reports for a child starts from that of the process that spawned it)
@@ -1347,6 +1346,7 @@ func runC14(c *Ctx) {
 			c14RunDirected(c, knut, root, &d)
 		}
 	}
+	runC14Late(c) // ---- journals that fail late, after a long valid prefix (c14late.go; last: its journals are large)
 	c.Extra["directed_around"] = len(suspects)
 	c.Extra["max_wall_s"] = maxWall.Seconds()
 	c.Extra["slowest_case"] = slowest
